@@ -102,10 +102,14 @@ def constants():
     t += f"def LEAF_VERSION_MASK : Nat := {int(m.group(1))}\n"
 
     # field widths
-    r = sig_hash._CAMOUNT
-    if not isinstance(r, range) or r.step != 1:
-        raise ValueError("_CAMOUNT is no longer a unit-step range")
-    t += f"def CAMOUNT_LO : Int := {r.start}\ndef CAMOUNT_HI : Int := {r.stop}\n"
+    # `_assert_valid_camount`: `if not <lo> <= amount < <hi>:` (a comparison since the repair of the
+    # float hang; the bounds are evaluated from the source expression)
+    ca = _src(sig_hash._assert_valid_camount)
+    m = re.search(r"if not (.+?) <= amount < (.+?):", ca)
+    if not m:
+        raise ValueError("_assert_valid_camount: bound not of the expected shape")
+    lo, hi = eval(m.group(1)), eval(m.group(2))  # noqa: S307
+    t += f"def CAMOUNT_LO : Int := {lo}\ndef CAMOUNT_HI : Int := {hi}\n"
     f4 = _src(tx_mod._assert_valid_4_byte_field)
     m = re.search(r"if not 0 <= value <= (\d+):", f4)
     if not m:
